@@ -83,6 +83,13 @@ func c14(r *Report) {
 	c11Order(r, "C14.start.resume-after-connections", st, []Callee{Fn("network/transport", "ConnectionManager", "Start"), Fn(dag, "Notifier", "Run")})
 	run := p.Func(dag, "notifier", "Run")
 	c14Budget(r, run)
+	c14AttemptsPositive(r)
+	// only a receiver-declared fatal error ends the retries: an error of the notifier's own shelf read/write (the store may just
+	// be busy) is an ordinary error (fix: it was wrapped in retry.Unrecoverable and the event was never delivered nor listed as failed)
+	nn2 := p.Func("network/dag", "notifier", "notifyNow")
+	fatalOnly := CallCheck(Fn("std:errors", "", "As"), -1, IsTrue)
+	fatalOnly.Desc = "errors.As(err, *EventFatal)"
+	r.Gate(Gate{ID: "C14.notify.only-fatal-is-unrecoverable", Fn: nn2, Effect: CallEffect(Fn("github.com/avast/retry-go/v4", "", "Unrecoverable")), Check: fatalOnly})
 	r.Gate(Gate{ID: "C14.run.every-stored-event-retried", Fn: run, Effect: SuccessReturn(), Check: ErrCheck(Fn(stoabsPkg, "KVStore", "ReadShelf")),
 		Alt: []Check{CallCheck(Fn(dag, "notifier", "isPersistent"), -1, IsFalse)}})
 	// (5)
@@ -288,11 +295,17 @@ func c14Budget(r *Report, run *ssa.Function) {
 		})}
 	r.Gate(g)
 	// the gate above says rescheduling requires Retries < max; the converse (budget not spent ⇒ rescheduled on failure):
-	r.MustReach(MustReach{ID: key + ".rescheduled-while-budget-left", Fn: run, Cond: CmpCheck("event.Retries < maxRetries", token.LSS, FieldV("Event", "Retries"), IntV(maxN), true),
-		Target: Callee{Desc: "append(failedAtStartup, event)", M: func(cc *ssa.CallCommon) bool {
-			b, ok := cc.Value.(*ssa.Builtin)
-			return ok && b.Name() == "append"
-		}}})
+	// … unless the receiver declared the event fatal (fix: after a restart a fatal event was retried at once). The fatal test is
+	// evaluated behind `Retries < maxRetries`, so its false edge is "budget left and not fatal": from there the event is rescheduled
+	appendCall := Callee{Desc: "append(failedAtStartup, event)", M: func(cc *ssa.CallCommon) bool {
+		b, ok := cc.Value.(*ssa.Builtin)
+		return ok && b.Name() == "append"
+	}}
+	notFatal := CallCheck(Fn("std:errors", "", "As"), -1, IsFalse)
+	notFatal.Desc = "errors.As(err, *EventFatal) is false"
+	r.MustReach(MustReach{ID: key + ".rescheduled-while-budget-left", Fn: run, Cond: notFatal, Target: appendCall})
+	r.Gate(Gate{ID: key + ".fatal-is-not-rescheduled", Fn: run, Effect: g.Effect, Check: notFatal})
+	r.Gate(Gate{ID: key + ".fatal-test-only-with-budget-left", Fn: run, Effect: CallEffect(Fn("std:errors", "", "As")), Check: CmpCheck("event.Retries < maxRetries", token.LSS, FieldV("Event", "Retries"), IntV(maxN), true)})
 	rt := p.Func("network/dag", "notifier", "retry")
 	found := false
 	if rt != nil {
@@ -345,4 +358,55 @@ func c14WritePayloadSameTx(r *Report, wp *ssa.Function, save Callee) {
 		return
 	}
 	r.OK(key, rule, r.P.Pos(cl.Pos()), "one closure, both writes", true)
+}
+
+// c14AttemptsPositive: retry-go treats Attempts(0) as "retry until it succeeds": the background retry is started only
+// behind a test that the remaining number of attempts is greater than zero (otherwise an event whose budget is exactly
+// spent is retried forever — the budget is not enforced).
+func c14AttemptsPositive(r *Report) {
+	p := r.P
+	const retryPkg = "github.com/avast/retry-go/v4"
+	rule := "GATE: the retry goroutine is started only if the number handed to retry.Attempts is > 0 (Attempts(0) means: forever)"
+	rt := p.Func("network/dag", "notifier", "retry")
+	if rt == nil {
+		r.Lost("C14.budget.attempts-positive", rule, "notifier.retry not found")
+		return
+	}
+	var cells []ssa.Value // the variable cell(s) / value(s) that end up in retry.Attempts
+	for _, f := range WithAnons(rt) {
+		for _, ci := range Calls(f, Fn(retryPkg, "", "Attempts")) {
+			v := StripConv(CallArg(ci.Common(), 0))
+			if u, ok := v.(*ssa.UnOp); ok && u.Op == token.MUL {
+				if fv, ok := u.X.(*ssa.FreeVar); ok {
+					if b := FreeVarBinding(fv); b != nil {
+						cells = append(cells, b)
+						continue
+					}
+				}
+				cells = append(cells, u.X)
+				continue
+			}
+			cells = append(cells, v)
+		}
+	}
+	if len(cells) == 0 {
+		r.Lost("C14.budget.attempts-positive @ "+p.FuncName(rt), rule, "no retry.Attempts call found")
+		return
+	}
+	attempts := VPat{Desc: "the number of attempts", M: func(v ssa.Value) bool {
+		v = StripConv(v)
+		for _, c := range cells {
+			if v == c {
+				return true
+			}
+			if u, ok := v.(*ssa.UnOp); ok && u.Op == token.MUL && u.X == c {
+				return true
+			}
+		}
+		return false
+	}}
+	r.Gate(Gate{ID: "C14.budget.attempts-positive", Fn: rt,
+		Effect: InstrEffect("go retry.Do(…)", func(in ssa.Instruction) bool { _, ok := in.(*ssa.Go); return ok }),
+		Check:  CmpCheck("0 < attempts", token.LSS, IntV(0), attempts, true),
+		Alt:    []Check{CmpCheck("1 <= attempts", token.LEQ, IntV(1), attempts, true), CmpCheck("attempts == 0 is false", token.EQL, attempts, IntV(0), false)}})
 }
